@@ -109,7 +109,7 @@ func unitC04orch(e common.Env, p *common.Part) {
 // unitC04live: the stepped worlds above keep every session open (deterministic quiescence); here sessions complete, so whatever
 // the orchestrator does when a party's call returns (cancel its context, clean up) races with the last messages' acknowledgements.
 func unitC04live(e common.Env, p *common.Part) {
-	p.Rule = "all-honest scripted sessions (key generation, then signing) of real Loud/barrier/silent schemes in random mode that RUN TO COMPLETION, N=3..5, two rounds of broadcasts (every second case with point-to-point traffic as well), five delivery policies (acknowledgements overtaking payloads); the backend's OnMsg that completes a party's last round returns only after that party's KeyGen/Sign has returned; oracle: every call returns nil and every message was handed over exactly once everywhere; distinct key = (N, mode, policy, index); non-trivial always"
+	p.Rule = "all-honest scripted sessions (key generation, then signing) of real Loud/barrier/silent schemes in random mode that RUN TO COMPLETION, N=3..5, two rounds of broadcasts (every second case with point-to-point traffic as well; every fifth case with byte-identical broadcasts of all parties), five delivery policies (acknowledgements overtaking payloads); the backend's OnMsg that completes a party's last round returns only after that party's KeyGen/Sign has returned; oracle: every call returns nil and every message was handed over exactly once everywhere; distinct key = (N, mode, policy, index); non-trivial always"
 	p.Assumptions = append(p.Assumptions, "completion is judged with a 5 s watchdog; a session that missed it although the network had been empty and the event log silent for >= 2 s when the deadline fired is reported at once, any other deadline only after a replay in a fresh cluster at 4x")
 	n := e.Pick(90, 3000)
 	for i := 0; i < n; i++ {
@@ -133,6 +133,10 @@ func unitC04live(e common.Env, p *common.Part) {
 		// every second case has broadcasts only: then the message that completes a party's last round is a broadcast (with
 		// point-to-point traffic the last message on a link is the point-to-point one, which needs no acknowledgement)
 		script := backend.Script{Rounds: []uint8{1, 2}, Bcast: true, P2P: i%2 == 1, LingerOnMsg: 3 * time.Millisecond}
+		// every fifth case: all parties broadcast the SAME bytes in a round (a constant announcement); hand-overs are then told
+		// apart by their transport attribution only
+		constant := i%5 == 4
+		script.ConstantBroadcasts = constant
 		for _, sign := range []bool{false, true} {
 			timeout := 5 * time.Second
 			sc := sessCfg{Callers: ids, Sign: sign, Topic: fmt.Sprintf("c04live-%d", i), Digest: []byte("0123456789abcdef0123456789abcdef"), Script: script, Timeout: timeout}
@@ -167,8 +171,29 @@ func unitC04live(e common.Env, p *common.Part) {
 					}
 				}
 			}
-			if sig == "" {
+			if sig == "" && !constant {
 				sig, what = sessionTotality(c, sc, res)
+			}
+			if sig == "" && constant {
+				// exactly one broadcast hand-over per (node, attributed party, round)
+				cnt := map[[3]uint16]int{}
+				for _, ev := range c.eventsSince(res.FromSeq) {
+					if ev.Kind == simnet.EvOnMsg && ev.Bcast {
+						if pl, err := backend.Decode(ev.Data); err == nil {
+							cnt[[3]uint16{ev.Node, ev.Peer, uint16(pl.Round)}]++
+						}
+					}
+				}
+				for _, u := range ids {
+					for _, f := range ids {
+						for _, r := range script.Rounds {
+							if u != f && cnt[[3]uint16{u, f, uint16(r)}] != 1 && sig == "" {
+								sig, what = "broadcast", fmt.Sprintf("the round-%d broadcast of party %d (same bytes as the other parties' broadcasts) was handed over %d times at node %d", r, f, cnt[[3]uint16{u, f, uint16(r)}], u)
+							}
+						}
+					}
+				}
+				p.Count("sessions_with_identical_broadcasts", 1)
 			}
 			if len(res.Panics) > 0 {
 				sig, what = "panic", res.Panics[0]
